@@ -17,7 +17,22 @@ ASSUMPTIONS = ["mirror image built by the oracle (parity flip of chiral descript
 def _check(spec):
     if not gl.is_stereo(spec["cls"]):
         return None
+    for used in (False, True):
+        msg = _check1(spec, used)
+        if msg:
+            return msg if not used else f"[graph compared (both sides) and hashed before enantiomer() was taken] {msg}"
+    return None
+
+
+def _check1(spec, used):
     g = gl.build(spec)
+    if used:
+        # state accumulated on the graph or on its descriptor objects by earlier comparisons must not leak into the mirror image
+        try:
+            other = gl.build(spec)
+            _ = (other == g), (g == other), hash(g), hash(other)
+        except Exception:
+            pass
     s0 = gl.snap(g)
     try:
         e = g.enantiomer()
@@ -95,7 +110,17 @@ def template(t, cls, **sel):
 
 
 def plan(tier, seed):
-    return [u for u in eqlib.family_units(tier, "vp.props.C06") if u.name.split("_")[-1] in ("SMG", "SCRG")]
+    units = [u for u in eqlib.family_units(tier, "vp.props.C06") if u.name.split("_")[-1] in ("SMG", "SCRG")]
+    if tier == "quick":
+        # octahedral / trigonal bipyramidal centres with repeated ligands (achiral and chiral arrangements of MA2B2C2, MA3B3, MA2B2CD, MA2B3): strided orderings
+        from vp.runner import Sel
+        for n, stride, ligs in (("star6", 16, "(1, 2, 4)"), ("star5", 6, "(1, 3)")):
+            for (nn, c, p, pr) in eqfam.template_units([n], classes=("SMG",)):
+                params = {"t": (C01.TNAMES.index(n), C01.TNAMES.index(n) + 1), "cls": (1, 2)}
+                params.update(p)
+                units.append(Sel(name=f"{n}_repeated_ligands_SMG", func="vp.props.C06:template", params=params,
+                                 pre=list(pr) + [f"lig in {ligs}", f"order % {stride} == 0", "par < 2", "chg == 0"], shard_by=[], timeout=1500))
+    return units
 
 
 MANIFEST = {
